@@ -1,12 +1,14 @@
 import CelModel.Props.C04
 import CelModel.Lemmas.ParserMin
+import CelModel.Lemmas.ParserCalls
 /-!
 # C04 (continued) — round trip through *minimal* parenthesisation
 
 `Src.renderMin` writes a tree with only the parentheses CEL's precedence table requires:
 `?:` binds loosest and to the right, then `||`, `&&`, the relations, the additive and the
-multiplicative operators (left-associative), then prefix `!` and `-`, then member access and
-indexing.  The theorem: parsing the minimally parenthesised tokens yields the tree — for every
+multiplicative operators (left-associative), then prefix `!` and `-`, then member access,
+method calls and indexing; function calls, list and map literals are primaries, their arguments /
+elements / entries are written without parentheses (whatever their root operator).  The theorem: parsing the minimally parenthesised tokens yields the tree — for every
 well-formed tree, of every size and depth.
 
 Three places keep a pair of parentheses that precedence alone would not demand, because the
@@ -18,7 +20,7 @@ and an operand of unary minus whose text starts with a numeral (`-1`, `-1.f` rea
 the numeral's sign: `single_minus_before_int_is_sign`).
 -/
 namespace Cel.Props.C04
-open Cel Cel.Parser Cel.Lexer
+open Cel Cel.Parser Cel.Lexer Cel.Lemmas.ParserCalls
 
 /-- binding strength of the node at the root: 0 `?:`, 1 `||`, 2 `&&`, 3 relations, 4 additive,
 5 multiplicative, 6 prefix, 7 member / primary -/
@@ -35,12 +37,19 @@ def Src.prec : Src → Nat
   | .cond _ _ _ => 0
   | .index _ _ => 7
   | .select _ _ => 7
+  | .call _ _ => 7
+  | .mcall _ _ _ => 7
+  | .list _ => 7
+  | .mapLit _ => 7
 
 /-- enclose in parentheses when needed -/
 def wrapIf (need : Bool) (ts : Toks) : Toks := if need then [.sym "("] ++ ts ++ [.sym ")"] else ts
 
+mutual
 /-- render the root node without enclosing parentheses; an operand is parenthesised exactly when
-it binds more loosely than its position requires (`wrapIf (operand.prec < required) …`) -/
+it binds more loosely than its position requires (`wrapIf (operand.prec < required) …`); the
+arguments of a call, the elements of a list and the keys and values of a map are at level 0
+(never parenthesised), the receiver of a method call at level 7 -/
 def Src.renderBare : Src → Toks
   | .ident n => [.ident n]
   | .num n => [.int (natToDec n)]
@@ -60,6 +69,38 @@ def Src.renderBare : Src → Toks
   | .cond c a b => wrapIf (c.prec < 1) c.renderBare ++ [.sym "?"] ++ wrapIf (a.prec < 1) a.renderBare ++ [.sym ":"] ++ b.renderBare
   | .index a i => wrapIf (a.prec < 7) a.renderBare ++ [.sym "["] ++ i.renderBare ++ [.sym "]"]
   | .select a f => wrapIf (a.prec < 7) a.renderBare ++ [.sym ".", .ident f]
+  | .call f args => [.ident f, .sym "("] ++ sepList (Src.renderBareEach args) ++ [.sym ")"]
+  | .mcall t f args =>
+    wrapIf (t.prec < 7) t.renderBare ++ [.sym ".", .ident f, .sym "("] ++ sepList (Src.renderBareEach args) ++ [.sym ")"]
+  | .list es => [.sym "["] ++ sepList (Src.renderBareEach es) ++ [.sym "]"]
+  | .mapLit es => [.sym "{"] ++ sepEntries (Src.renderBareEntries es) ++ [.sym "}"]
+/-- `as.map renderBare` (every element at level 0) -/
+def Src.renderBareEach : List Src → List Toks
+  | [] => []
+  | a :: as => a.renderBare :: Src.renderBareEach as
+/-- `es.map fun (k, v) => (k.renderBare, v.renderBare)` -/
+def Src.renderBareEntries : List (Src × Src) → List (Toks × Toks)
+  | [] => []
+  | (k, v) :: es => (k.renderBare, v.renderBare) :: Src.renderBareEntries es
+end
+
+theorem Src.renderBareEach_eq_map (as : List Src) : Src.renderBareEach as = as.map Src.renderBare := by
+  induction as with
+  | nil => simp [Src.renderBareEach]
+  | cons a as ih => simp [Src.renderBareEach, ih]
+
+theorem Src.renderBareEntries_eq_map (es : List (Src × Src)) :
+    Src.renderBareEntries es = es.map fun p => (p.1.renderBare, p.2.renderBare) := by
+  induction es with
+  | nil => simp [Src.renderBareEntries]
+  | cons p es ih => obtain ⟨k, v⟩ := p; simp [Src.renderBareEntries, ih]
+
+theorem Src.length_renderBareEach (as : List Src) : (Src.renderBareEach as).length = as.length := by
+  simp [Src.renderBareEach_eq_map]
+
+theorem Src.length_renderBareEntries (es : List (Src × Src)) :
+    (Src.renderBareEntries es).length = es.length := by
+  simp [Src.renderBareEntries_eq_map]
 
 /-- render `t` where a construct of binding strength at least `p` is required -/
 def Src.renderAt (p : Nat) (t : Src) : Toks := wrapIf (t.prec < p) t.renderBare
@@ -76,7 +117,10 @@ the same about `t.renderBare` at the level of the root node; `Bare.good` adds th
 section Proof
 open Cel.Lemmas.ParserSteps Cel.Lemmas.ParserMin
 
-/-- number of nodes (the fuel needed is proportional to it; every node writes at least one token) -/
+mutual
+/-- number of nodes, every argument / element / entry of a call or literal counting once more
+(the fuel needed is proportional to it; every node writes at least one token, every argument a
+separator or the closing token) -/
 def nodes : Src → Nat
   | .ident _ => 1
   | .num _ => 1
@@ -86,15 +130,28 @@ def nodes : Src → Nat
   | .cond c a b => nodes c + nodes a + nodes b + 1
   | .index a i => nodes a + nodes i + 1
   | .select a _ => nodes a + 1
+  | .call _ args => nodesList args + args.length + 1
+  | .mcall t _ args => nodes t + nodesList args + args.length + 1
+  | .list es => nodesList es + es.length + 1
+  | .mapLit es => nodesEntries es + es.length + 1
+def nodesList : List Src → Nat
+  | [] => 0
+  | a :: as => nodes a + nodesList as
+def nodesEntries : List (Src × Src) → Nat
+  | [] => 0
+  | (k, v) :: es => nodes k + nodes v + nodesEntries es
+end
 
 theorem length_le_wrapIf (b : Bool) (ts : Toks) : ts.length ≤ (wrapIf b ts).length := by
   unfold wrapIf; split <;> simp <;> omega
 
-theorem nodes_le_renderBare (t : Src) : nodes t ≤ t.renderBare.length := by
-  induction t with
-  | ident n => simp [nodes, Src.renderBare]
-  | num n => simp [nodes, Src.renderBare]
-  | bin sym nm a b iha ihb =>
+mutual
+theorem nodes_le_renderBare : (t : Src) → nodes t ≤ t.renderBare.length
+  | .ident n => by simp [nodes, Src.renderBare]
+  | .num n => by simp [nodes, Src.renderBare]
+  | .bin sym nm a b => by
+    have iha := nodes_le_renderBare a
+    have ihb := nodes_le_renderBare b
     have ha := fun c => Nat.le_trans iha (length_le_wrapIf c a.renderBare)
     have hb := fun c => Nat.le_trans ihb (length_le_wrapIf c b.renderBare)
     simp only [Src.renderBare, nodes]
@@ -105,26 +162,68 @@ theorem nodes_le_renderBare (t : Src) : nodes t ≤ t.renderBare.length := by
     · have := ha (decide (a.prec < Src.prec (.bin sym nm a b)))
       have := hb (decide (b.prec < Src.prec (.bin sym nm a b) + 1))
       simp only [List.length_append, List.length_cons, List.length_nil]; omega
-  | not a iha =>
+  | .not a => by
+    have iha := nodes_le_renderBare a
     have := Nat.le_trans iha (length_le_wrapIf (decide (a.prec < 7)) a.renderBare)
     simp only [Src.renderBare, nodes, List.length_append, List.length_cons, List.length_nil]; omega
-  | neg a iha =>
+  | .neg a => by
+    have iha := nodes_le_renderBare a
     have := Nat.le_trans iha (length_le_wrapIf (decide (a.prec < 7)) a.renderBare)
     simp only [Src.renderBare, nodes]
     split
     · rename_i heq; rw [heq] at this
       simp only [List.length_append, List.length_cons, List.length_nil] at this ⊢; omega
     · simp only [List.length_append, List.length_cons, List.length_nil]; omega
-  | cond c a b ihc iha ihb =>
+  | .cond c a b => by
+    have ihc := nodes_le_renderBare c
+    have iha := nodes_le_renderBare a
+    have ihb := nodes_le_renderBare b
     have := Nat.le_trans ihc (length_le_wrapIf (decide (c.prec < 1)) c.renderBare)
     have := Nat.le_trans iha (length_le_wrapIf (decide (a.prec < 1)) a.renderBare)
     simp only [Src.renderBare, nodes, List.length_append, List.length_cons, List.length_nil]; omega
-  | index a i iha ihi =>
+  | .index a i => by
+    have iha := nodes_le_renderBare a
+    have ihi := nodes_le_renderBare i
     have := Nat.le_trans iha (length_le_wrapIf (decide (a.prec < 7)) a.renderBare)
     simp only [Src.renderBare, nodes, List.length_append, List.length_cons, List.length_nil]; omega
-  | select a f iha =>
+  | .select a f => by
+    have iha := nodes_le_renderBare a
     have := Nat.le_trans iha (length_le_wrapIf (decide (a.prec < 7)) a.renderBare)
     simp only [Src.renderBare, nodes, List.length_append, List.length_cons, List.length_nil]; omega
+  | .call f args => by
+    have := nodesList_le args
+    have := length_sepTail_le (Src.renderBareEach args)
+    simp only [Src.renderBare, nodes, List.length_append, List.length_cons, List.length_nil]; omega
+  | .mcall t f args => by
+    have iht := nodes_le_renderBare t
+    have := Nat.le_trans iht (length_le_wrapIf (decide (t.prec < 7)) t.renderBare)
+    have := nodesList_le args
+    have := length_sepTail_le (Src.renderBareEach args)
+    simp only [Src.renderBare, nodes, List.length_append, List.length_cons, List.length_nil]; omega
+  | .list es => by
+    have := nodesList_le es
+    have := length_sepTail_le (Src.renderBareEach es)
+    simp only [Src.renderBare, nodes, List.length_append, List.length_cons, List.length_nil]; omega
+  | .mapLit es => by
+    have := nodesEntries_le es
+    have := length_sepEntTail_le (Src.renderBareEntries es)
+    simp only [Src.renderBare, nodes, List.length_append, List.length_cons, List.length_nil]; omega
+theorem nodesList_le : (as : List Src) →
+    nodesList as + as.length ≤ (sepTail (Src.renderBareEach as)).length
+  | [] => by simp [nodesList]
+  | a :: as => by
+    have := nodes_le_renderBare a
+    have := nodesList_le as
+    simp only [nodesList, Src.renderBareEach, sepTail, List.length_append, List.length_cons]; omega
+theorem nodesEntries_le : (es : List (Src × Src)) →
+    nodesEntries es + es.length ≤ (sepEntTail (Src.renderBareEntries es)).length
+  | [] => by simp [nodesEntries]
+  | (k, v) :: es => by
+    have := nodes_le_renderBare k
+    have := nodes_le_renderBare v
+    have := nodesEntries_le es
+    simp only [nodesEntries, Src.renderBareEntries, sepEntTail, List.length_append, List.length_cons]; omega
+end
 
 theorem prec_le (t : Src) : t.prec ≤ 7 := by
   cases t <;> simp only [Src.prec] <;> (repeat' split) <;> omega
@@ -228,6 +327,52 @@ theorem bare_index (ha : Good fa a) (hb : Good fb b) : Bare (fa + fb + 2) (.inde
     c4 := fun h => absurd h (prec_ne (q := 7) (p := 4) rfl (by decide))
     c3 := fun h => absurd h (prec_ne (q := 7) (p := 3) rfl (by decide)) }
 
+theorem bare_call {fi : Nat} {args : List Src} (f : Str) (hf : FnName f)
+    (hI : Items fi (Src.renderBareEach args) (Src.denoteList args)) :
+    Bare (fi + (Src.renderBareEach args).length + 3) (.call f args) := by
+  have hC := cont7_call hI f (hf.notMacro _ _)
+  exact {
+    pa := hC.parsesAt
+    c7 := fun _ => ⟨hC, .ident f _⟩
+    c5 := fun h => absurd h (prec_ne (q := 7) (p := 5) rfl (by decide))
+    c4 := fun h => absurd h (prec_ne (q := 7) (p := 4) rfl (by decide))
+    c3 := fun h => absurd h (prec_ne (q := 7) (p := 3) rfl (by decide)) }
+
+theorem bare_mcall {fi : Nat} {args : List Src} (ha : Good fa a) (f : Str) (hf : FnName f)
+    (hI : Items fi (Src.renderBareEach args) (Src.denoteList args)) :
+    Bare (fa + fi + (Src.renderBareEach args).length + 3) (.mcall a f args) := by
+  have hC := cont7_mcall ha.c7 hI f (hf.notMacro _ _)
+  exact {
+    pa := hC.parsesAt
+    c7 := fun _ => ⟨hC, by
+      show HeadOk (a.renderAt 7 ++ [.sym ".", .ident f, .sym "("] ++ sepList (Src.renderBareEach args) ++ [.sym ")"])
+      simp only [List.append_assoc]; exact ha.hd.append _⟩
+    c5 := fun h => absurd h (prec_ne (q := 7) (p := 5) rfl (by decide))
+    c4 := fun h => absurd h (prec_ne (q := 7) (p := 4) rfl (by decide))
+    c3 := fun h => absurd h (prec_ne (q := 7) (p := 3) rfl (by decide)) }
+
+theorem bare_list {fi : Nat} {es : List Src}
+    (hI : Items fi (Src.renderBareEach es) (Src.denoteList es)) :
+    Bare (fi + (Src.renderBareEach es).length + 3) (.list es) := by
+  have hC := cont7_list hI
+  exact {
+    pa := hC.parsesAt
+    c7 := fun _ => ⟨hC, .brack _⟩
+    c5 := fun h => absurd h (prec_ne (q := 7) (p := 5) rfl (by decide))
+    c4 := fun h => absurd h (prec_ne (q := 7) (p := 4) rfl (by decide))
+    c3 := fun h => absurd h (prec_ne (q := 7) (p := 3) rfl (by decide)) }
+
+theorem bare_mapLit {fi : Nat} {es : List (Src × Src)}
+    (hI : Entries fi (Src.renderBareEntries es) (Src.denoteEntries es)) :
+    Bare (fi + (Src.renderBareEntries es).length + 3) (.mapLit es) := by
+  have hC := cont7_map hI
+  exact {
+    pa := hC.parsesAt
+    c7 := fun _ => ⟨hC, .brace _⟩
+    c5 := fun h => absurd h (prec_ne (q := 7) (p := 5) rfl (by decide))
+    c4 := fun h => absurd h (prec_ne (q := 7) (p := 4) rfl (by decide))
+    c3 := fun h => absurd h (prec_ne (q := 7) (p := 3) rfl (by decide)) }
+
 theorem bare_not (ha : Good fa a) : Bare (fa + 1) (.not a) where
   pa := parsesAt_not (ha.pa 7 (by omega)) ha.hd
   c7 := fun h => absurd h (prec_ne (q := 6) (p := 7) rfl (by decide))
@@ -324,14 +469,15 @@ theorem bare_mul (ha : Good fa a) (hb : Good fb b) {s nm : String} (hop : mulOpN
     c3 := fun h => absurd (hs.1 ▸ h) (by decide) }
 end
 
-theorem good_of_wf (t : Src) (h : t.WF) : Good (30 * nodes t) t := by
-  induction t with
-  | ident n => exact (bare_ident n).good (by simp only [nodes]; omega)
-  | num n => exact (bare_num n h).good (by simp only [nodes]; omega)
-  | bin sym nm a b iha ihb =>
+mutual
+theorem good_of_wf : (t : Src) → t.WF → Good (30 * nodes t) t
+  | .ident n, _ => (bare_ident n).good (by simp only [nodes]; omega)
+  | .num n, h => (bare_num n h).good (by simp only [nodes]; omega)
+  | .bin sym nm a b, h => by
+    simp only [Src.WF] at h
     obtain ⟨hop, ha, hb⟩ := h
-    have iha := iha ha
-    have ihb := ihb hb
+    have iha := good_of_wf a ha
+    have ihb := good_of_wf b hb
     have hf : 30 * nodes a + 30 * nodes b + 2 + 18 ≤ 30 * nodes (.bin sym nm a b) := by
       simp only [nodes]; omega
     simp only [binTable, List.mem_cons, Prod.mk.injEq, List.mem_nil_iff, or_false] at hop
@@ -351,15 +497,62 @@ theorem good_of_wf (t : Src) (h : t.WF) : Good (30 * nodes t) t := by
     · exact (bare_mul iha ihb rfl).good hf
     · exact (bare_mul iha ihb rfl).good hf
     · exact (bare_mul iha ihb rfl).good hf
-  | not a iha => exact (bare_not (iha h)).good (by simp only [nodes]; omega)
-  | neg a iha => exact (bare_neg (iha h)).good (by simp only [nodes]; omega)
-  | cond c a b ihc iha ihb =>
+  | .not a, h => by
+    simp only [Src.WF] at h
+    exact (bare_not (good_of_wf a h)).good (by simp only [nodes]; omega)
+  | .neg a, h => by
+    simp only [Src.WF] at h
+    exact (bare_neg (good_of_wf a h)).good (by simp only [nodes]; omega)
+  | .cond c a b, h => by
+    simp only [Src.WF] at h
     obtain ⟨hc, ha, hb⟩ := h
-    exact (bare_cond (ihc hc) (iha ha) (ihb hb)).good (by simp only [nodes]; omega)
-  | index a i iha ihi =>
+    exact (bare_cond (good_of_wf c hc) (good_of_wf a ha) (good_of_wf b hb)).good (by simp only [nodes]; omega)
+  | .index a i, h => by
+    simp only [Src.WF] at h
     obtain ⟨ha, hi⟩ := h
-    exact (bare_index (iha ha) (ihi hi)).good (by simp only [nodes]; omega)
-  | select a f iha => exact (bare_select (iha h.1) f).good (by simp only [nodes]; omega)
+    exact (bare_index (good_of_wf a ha) (good_of_wf i hi)).good (by simp only [nodes]; omega)
+  | .select a f, h => by
+    simp only [Src.WF] at h
+    exact (bare_select (good_of_wf a h.1) f).good (by simp only [nodes]; omega)
+  | .call f args, h => by
+    simp only [Src.WF] at h
+    have hlen := Src.length_renderBareEach args
+    exact (bare_call f h.1 (goodList args h.2)).good (by simp only [nodes]; omega)
+  | .mcall t f args, h => by
+    simp only [Src.WF] at h
+    have hlen := Src.length_renderBareEach args
+    exact (bare_mcall (good_of_wf t h.1) f h.2.1 (goodList args h.2.2)).good (by simp only [nodes]; omega)
+  | .list es, h => by
+    simp only [Src.WF] at h
+    have hlen := Src.length_renderBareEach es
+    exact (bare_list (goodList es h)).good (by simp only [nodes]; omega)
+  | .mapLit es, h => by
+    simp only [Src.WF] at h
+    have hlen := Src.length_renderBareEntries es
+    exact (bare_mapLit (goodEntries es h)).good (by simp only [nodes]; omega)
+/-- the arguments / elements, written at level 0, are read one by one -/
+theorem goodList : (as : List Src) → Src.WFList as →
+    Items (30 * nodesList as) (Src.renderBareEach as) (Src.denoteList as)
+  | [], _ => .nil
+  | a :: as, h => by
+    simp only [Src.WFList] at h
+    have hA := (good_of_wf a h.1).pa 0 (by omega)
+    rw [renderAt_of_le (Nat.zero_le _)] at hA
+    simp only [Src.renderBareEach, Src.denoteList]
+    exact .cons (hA.mono (by simp only [nodesList]; omega))
+      ((goodList as h.2).mono (by simp only [nodesList]; omega))
+theorem goodEntries : (es : List (Src × Src)) → Src.WFEntries es →
+    Entries (30 * nodesEntries es) (Src.renderBareEntries es) (Src.denoteEntries es)
+  | [], _ => .nil
+  | (k, v) :: es, h => by
+    simp only [Src.WFEntries] at h
+    have hK := (good_of_wf k h.1).pa 0 (by omega)
+    have hV := (good_of_wf v h.2.1).pa 0 (by omega)
+    rw [renderAt_of_le (Nat.zero_le _)] at hK hV
+    simp only [Src.renderBareEntries, Src.denoteEntries]
+    exact .cons (hK.mono (by simp only [nodesEntries]; omega)) (hV.mono (by simp only [nodesEntries]; omega))
+      ((goodEntries es h.2.2).mono (by simp only [nodesEntries]; omega))
+end
 
 end Proof
 
@@ -392,5 +585,21 @@ example : (Src.bin "-" "_-_" (.bin "-" "_-_" vA vB) vC).renderMin =
     [.ident "a".toList, .sym "-", .ident "b".toList, .sym "-", .ident "c".toList] := by decide
 example : (Src.cond vC vA (.cond vC vA vB)).renderMin =
     [.ident "c".toList, .sym "?", .ident "a".toList, .sym ":", .ident "c".toList, .sym "?", .ident "a".toList, .sym ":", .ident "b".toList] := by decide
+
+/-- `f(a, b + c).g([d], {e: f})[0] * 2` (`exCall` of `Props/C04.lean`) needs no parentheses at all -/
+example : exCall.renderMin =
+    [.ident "f".toList, .sym "(", .ident "a".toList, .sym ",", .ident "b".toList, .sym "+", .ident "c".toList, .sym ")",
+     .sym ".", .ident "g".toList, .sym "(", .sym "[", .ident "d".toList, .sym "]", .sym ",",
+       .sym "{", .ident "e".toList, .sym ":", .ident "f".toList, .sym "}", .sym ")",
+     .sym "[", .int "0".toList, .sym "]", .sym "*", .int "2".toList] := by decide
+
+example : parseTop exCall.renderMin = some exCall.denote :=
+  parse_render_minimal _ (by
+    simp [exCall, Src.WF, Src.WFList, Src.WFEntries, FnName, macroNames, binTable, i64Max])
+
+/-- a conditional as an argument and a sum as a receiver: `(a + b).f(c ? a : b)` -/
+example : (Src.mcall (.bin "+" "_+_" vA vB) "f".toList [.cond vC vA vB]).renderMin =
+    [.sym "(", .ident "a".toList, .sym "+", .ident "b".toList, .sym ")", .sym ".", .ident "f".toList, .sym "(",
+     .ident "c".toList, .sym "?", .ident "a".toList, .sym ":", .ident "b".toList, .sym ")"] := by decide
 
 end Cel.Props.C04
